@@ -97,7 +97,7 @@ def alive(entry, t, a, b, ln):
             if 'C10_to_string_full_capacity' in op and n == ln: continue
         return True
     return False
-def q(entry, cfg, unwind, ub, solver='minisat', budget=120):
+def q(entry, cfg, unwind, ub, solver='minisat', budget=300):
     return dict(entry=entry, cfg=cfg, unwind=unwind, unwindset=US, budget=budget, ub=ub, nofunc=ub, solver=solver)
 def queries(tier, prop='C10'):
     ub = prop == 'C02'
@@ -132,7 +132,7 @@ def queries(tier, prop='C10'):
                 nd = ndig((1 << (bits - s)) - 1, b)
                 ln = maxtext(t, b) + 1
                 cfg = {'TY': t, 'LEN': ln, 'BASE': b, 'WTL': 0, 'WTLN': 0}
-                for e in ('q_to_chars', 'q_from_integer', 'q_roundtrip', 'q_oracle_model'):
+                for e in ('q_to_chars', 'q_from_integer', 'q_roundtrip'):
                     out.append(q(e, cfg, max(nd + 3, ln + 2), ub))
         for b in (2, 10, 16, 36):
             nd = ndig((1 << (bits - s)) - 1, b)
@@ -151,13 +151,13 @@ def queries(tier, prop='C10'):
     if thorough:
         wide += [('int', 2), ('unsigned', 8), ('int', 8), ('int', 36), ('unsigned long', 2), ('long', 2), ('unsigned long', 8), ('unsigned long', 36),
                  ('unsigned long long', 10), ('long long', 10), ('unsigned long long', 16), ('long long', 16)]
-    def add(entry, cfg, uw, t, a, b, ln, sv='minisat', bud=120):
+    def add(entry, cfg, uw, t, a, b, ln, sv='minisat', bud=300):
         if alive(entry, t, a, b, ln): out.append(q(entry, cfg, uw, ub, sv, bud))
     for t, b in wide:
         bits, s = TYPES[t]
         nd = ndig((1 << (bits - s)) - 1, b)
         mt = maxtext(t, b)
-        heavy = bits == 64 and b not in (2, 8, 16)                     # 64-bit division by a non power of two: the costly windows
+        heavy = bits == 64 and b not in (8, 16)                        # 64-bit, long digit loops (base 2) or division by a non power of two: the costly windows
         more = thorough and b == 10 and t in ('unsigned', 'int', 'unsigned long')      # thorough: every (second) power of ten, limits/10 as anchors
         base_anc = anchors(t, b, False)
         if heavy: base_anc = [x for x in base_anc if x in (0, (1 << (bits - s)) - 1, 1 << (bits - 1))]
@@ -167,7 +167,7 @@ def queries(tier, prop='C10'):
             for ln in ([0, 1, 2] if a == 0 else [na - 1, na, na + 1]):
                 cfg = {'TY': t, 'LEN': ln, 'BASE': b, 'ANCHOR': '%dULL' % a}
                 uw = max(nd + 3, ln + 2)
-                sv, bud = ('minisat', 120) if not heavy else ('kissat', 300 if thorough else 120)
+                sv, bud = ('minisat', 300) if not heavy else ('kissat', 300)
                 if ln != na - 1 or not heavy: add('q_to_chars', cfg, uw, t, a, b, ln, sv, bud)
                 if ln in (2, na + 1) and not extra:
                     add('q_from_integer', cfg, uw, t, a, b, ln, sv, bud)
@@ -179,7 +179,7 @@ def queries(tier, prop='C10'):
             # (int base 10 and the 64-bit types gave no verdict within the budget: outside the bound)
             for ln in sorted({1, nd, mt + 1}):
                 cfg = {'TY': t, 'LEN': ln, 'BASE': b, 'REFORACLE': 1, 'NOWIT': 1}
-                out.append(q('q_to_chars', cfg, max(nd + 3, ln + 2), ub, ['z3', 'kissat'], 900))
+                out.append(q('q_to_chars', cfg, max(nd + 3, ln + 2), ub, ['kissat', 'z3'] if b == 2 else ['z3', 'kissat'], 900))
             if b in (2, 8, 16): out.append(q('q_oracle_model', {'TY': t, 'LEN': mt + 1, 'BASE': b, 'NOWIT': 1}, nd + 4, ub, 'kissat', 900))
     # ---- to_string<CAP>
     for t in ['int', 'unsigned', 'long', 'unsigned long'] + (['long long', 'unsigned long long'] if thorough else []):
